@@ -47,11 +47,11 @@ Expect(s, ev) ==
              okRet == ev.panic = "" /\ ev.n = Len(ev.data) /\ ev.err = ""
              okIn  == ev.data_after = ev.data
              okSt  == ProjOK(o2, ev)
-         \* The projected internal state (okSt) is compared only for objects whose state was INJECTED through the hook
-         \* (there it is the only view there is).  Otherwise the property is about digests: an implementation that
-         \* buffers differently (compresses a full block lazily, say) is not wrong, and a state that really is
-         \* corrupted shows in the next Sum of the history.
-         IN [st |-> Put(s, ev.h, o2), ok |-> okRet /\ okIn /\ (o.injected => okSt),
+         \* The projected internal state (okSt) is computed but not demanded (only the sm3.inject event itself checks
+         \* that the hook placed the state that was asked for): the property is about digests - an implementation
+         \* that buffers differently (compresses a full block lazily, say) is not wrong, and a state that really
+         \* is corrupted shows in the next Sum of the history.
+         IN [st |-> Put(s, ev.h, o2), ok |-> okRet /\ okIn,
              why |-> IF ~okRet THEN "write: return values (n, err)"
                      ELSE IF ~okIn THEN "write: input modified" ELSE "write: state"]
     [] ev.op = "sm3.sum" ->
@@ -63,7 +63,7 @@ Expect(s, ev) ==
              okArr == (ev.spare >= 32 /\ Len(ev["in"]) + ev.spare > 0) => ev.same_array
          \* okArr (the result re-uses in's array when it has room) is what append does, but the property asks for the
          \* appended VALUE only: recorded, not demanded.  okSt: see sm3.write.
-         IN [st |-> s, ok |-> okOut /\ okMach /\ (o.injected => okSt),
+         IN [st |-> s, ok |-> okOut /\ okMach,
              why |-> IF ~okOut THEN "sum: digest"
                      ELSE IF ~okMach THEN "sum: machine/definition mismatch (spec)"
                      ELSE IF ~okSt THEN "sum: state changed" ELSE "sum: append contract"]
